@@ -4,9 +4,9 @@ package main
 
 // blsprobe: key-dependent behaviour of the BLS12-381 scheme: fresh clusters, every replica signs, every other verifies.
 import (
-	"os"
 	"flag"
 	"fmt"
+	"os"
 
 	"github.com/relab/hotstuff"
 	"github.com/relab/hotstuff/internal/verif/hx"
